@@ -12,19 +12,13 @@ Proof. intros. unfold upd. rewrite Nat.eqb_refl. reflexivity. Qed.
 Lemma upd_other : forall A (f : nat -> A) k v x, x <> k -> upd f k v x = f x.
 Proof. intros A f k v x Hne. unfold upd. destruct (Nat.eqb_spec x k); [contradiction|reflexivity]. Qed.
 
-Ltac upd_cases :=
+(* case analysis on every [upd] lookup; terminates: each destruct removes one test *)
+Ltac eqb_cases :=
   repeat match goal with
-  | |- context [upd _ ?k _ ?x] =>
-      first [ rewrite upd_same
-            | rewrite upd_other by (solve [assumption | apply not_eq_sym; assumption | lia])
-            | let E := fresh "E" in destruct (Nat.eq_dec x k) as [E|E];
-              [ (try subst x); (try subst k); rewrite ?upd_same | rewrite (upd_other _ _ k _ x E) ] ]
-  | H : context [upd _ ?k _ ?x] |- _ =>
-      first [ rewrite upd_same in H
-            | rewrite upd_other in H by (solve [assumption | apply not_eq_sym; assumption | lia])
-            | let E := fresh "E" in destruct (Nat.eq_dec x k) as [E|E];
-              [ (try subst x); (try subst k); rewrite ?upd_same in H | rewrite (upd_other _ _ k _ x E) in H ] ]
+  | |- context [Nat.eqb ?a ?b] => destruct (Nat.eqb_spec a b)
+  | H : context [Nat.eqb ?a ?b] |- _ => destruct (Nat.eqb_spec a b)
   end.
+Ltac upd_cases := unfold upd in *; eqb_cases; try subst; simpl in *.
 
 Lemma run_from_app : forall ops1 ops2 st, run_from st (ops1 ++ ops2) = run_from (run_from st ops1) ops2.
 Proof. induction ops1 as [|o ops1 IH]; intros; simpl; [reflexivity|apply IH]. Qed.
